@@ -447,6 +447,24 @@ const FIXED: &[&str] = &[
     "S(R[36][128512] R[][45])",
 ];
 
+/// combining marks of DIFFERENT canonical combining classes (class in the comment); texts put
+/// 2-4 of them on one base in every order, so a normalizer that reorders marks (and moves the
+/// source offsets with them) shows up in the monotonicity clause
+const MARKS: &[char] = &[
+    '\u{93c}',  // 7   devanagari nukta
+    '\u{5b0}',  // 10  hebrew point sheva
+    '\u{5b4}',  // 14  hebrew point hiriq
+    '\u{327}',  // 202 cedilla
+    '\u{31b}',  // 216 horn
+    '\u{323}',  // 220 dot below
+    '\u{300}',  // 230 grave
+    '\u{301}',  // 230 acute
+    '\u{308}',  // 230 diaeresis
+    '\u{345}',  // 240 ypogegrammeni
+];
+/// bases for mark clusters: plain, precomposed (decompose to base + marks), Hangul
+const BASES: &[char] = &['a', 'e', 'I', '\u{e9}', '\u{1ead}', '\u{1fb}', '\u{3b1}', '\u{5d1}', '\u{915}', '\u{ac00}', '\u{1100}'];
+
 fn rand_text(rng: &mut SplitMix64) -> Vec<char> {
     let len = match rng.below(10) {
         0 => 0,
@@ -456,12 +474,27 @@ fn rand_text(rng: &mut SplitMix64) -> Vec<char> {
     let ascii_only = rng.chance(1, 8);
     let mut v = vec![];
     while v.len() < len {
-        match rng.below(12) {
+        match rng.below(13) {
             0 => {
                 // base letter followed by combining marks (composable)
                 v.push(rng.pick(&['e', 'E', 'a', 'o', 'I', 'i']));
                 if !ascii_only {
                     v.push(rng.pick(&['\u{301}', '\u{307}', '\u{308}']));
+                }
+            }
+            12 => {
+                // (optional) base + 2..4 marks of different combining classes, any order;
+                // without a base the marks sit at the start of the text / after anything
+                if rng.chance(4, 5) {
+                    let b = rng.pick(BASES);
+                    if !ascii_only || b.is_ascii() {
+                        v.push(b);
+                    }
+                }
+                if !ascii_only {
+                    for _ in 0..2 + rng.below(3) {
+                        v.push(rng.pick(MARKS));
+                    }
                 }
             }
             1 => {
@@ -529,6 +562,55 @@ fn generate(seed: u64, n: usize, tier: &str, out: &mut impl Write) {
         for t in &texts {
             let s: String = t.iter().collect();
             writeln!(out, "{}|{}", cfg, string_to_cps(&s)).unwrap();
+        }
+    }
+    // 1c. mark clusters: {no base (start of text), plain base, precomposed base} followed by every
+    //     ordered pair (thorough: also every ordered triple over six of them; two 4-mark runs in
+    //     descending class order) of marks with different combining classes; Hangul jamo sequences; for all four
+    //     Unicode forms and inside Sequences with Bert / Replace
+    let cluster_cfgs = [
+        "NFC", "NFD", "NFKC", "NFKD", "S(NFD B10)", "S(R[120][121] NFC)", "S(B01 NFKD R[97][98])", "S(S(NFKC) B00)",
+    ];
+    let marks: &[char] = if tier == "thorough" { MARKS } else { &['\u{93c}', '\u{5b0}', '\u{31b}', '\u{323}', '\u{301}', '\u{345}'] };
+    let bases: &[&str] = if tier == "thorough" {
+        &["", "a", "\u{e9}", "\u{1ead}", "x\u{5d1}", "\u{ac00}"]
+    } else {
+        &["", "a", "\u{e9}"]
+    };
+    let mut clusters: Vec<String> = vec![];
+    for &m1 in marks {
+        for &m2 in marks {
+            if m1 == m2 {
+                continue;
+            }
+            clusters.push([m1, m2].iter().collect());
+            let small3 = |m: char| ['\u{93c}', '\u{5b0}', '\u{31b}', '\u{323}', '\u{301}', '\u{345}'].contains(&m);
+            if tier == "thorough" && small3(m1) && small3(m2) {
+                for &m3 in marks {
+                    if m3 != m1 && m3 != m2 && small3(m3) {
+                        clusters.push([m1, m2, m3].iter().collect());
+                    }
+                }
+            }
+        }
+    }
+    clusters.push("\u{345}\u{301}\u{323}\u{31b}".to_string());
+    clusters.push("\u{301}\u{323}\u{5b0}\u{93c}".to_string());
+    let mut cluster_texts: Vec<String> = vec![];
+    for b in bases {
+        for c in &clusters {
+            cluster_texts.push(format!("{}{}", b, c));
+        }
+    }
+    for t in [
+        "\u{1100}\u{1161}\u{11a8}", "\u{1100}\u{1161}\u{1161}", "\u{ac00}\u{11a8}", "\u{1100}\u{1161}\u{301}\u{323}",
+        "\u{ac01}\u{323}\u{301}", "\u{1100}\u{1100}\u{1161}\u{11a8}\u{11a8}", "a\u{301}\u{323}b\u{323}\u{301}",
+    ] {
+        cluster_texts.push(t.to_string());
+    }
+    for cfg in cluster_cfgs {
+        for t in &cluster_texts {
+            writeln!(out, "{}|{}", cfg, string_to_cps(t)).unwrap();
         }
     }
     // 1b. regex run-time errors (fancy-regex backtrack limit): NormalizeError::RegexError, alone
